@@ -577,6 +577,13 @@ class Sym:
             if f[:1] == ("attr",) and f[1] == ("glob", "operator") and len(pos) == 2 and not kws and f[2] in _OPERATOR_FUNCS \
                     and "operator" not in self.locals:
                 return ("op", _OPERATOR_FUNCS[f[2]], pos[0], pos[1])
+            # operator.imul(a, b) is what `a *= b` evaluates to (the in-place method, then the binary fallback)
+            if f[:1] == ("attr",) and f[1] == ("glob", "operator") and len(pos) == 2 and not kws and f[2][:1] == "i" \
+                    and f[2][1:] in _OPERATOR_FUNCS or (f[:1] == ("attr",) and f[1] == ("glob", "operator") and len(pos) == 2 and not kws
+                                                        and f[2] in ("iand", "ior")):
+                if "operator" not in self.locals:
+                    nm_ = {"iand": "and_", "ior": "or_"}.get(f[2], f[2][1:])
+                    return ("aug", _OPERATOR_FUNCS[nm_], pos[0], pos[1])
             # getattr(x, n) with n one of a few literal names (an element of a table of attribute names) is one of x.n
             if f == ("glob", "getattr") and len(pos) == 2 and not kws and pos[1][:1] == ("alt",) and "getattr" not in self.locals \
                     and all(a[:1] == ("const",) and a[1][:1] in ("'", '"') and a[1][1:-1].isidentifier() for a in pos[1][1]):
@@ -622,6 +629,8 @@ class Sym:
                     body = ("attr", el, g[2][0][1].strip("'\""))
                 elif getter == "itemgetter" and len(g[2]) == 1:
                     body = ("sub", el, g[2][0])
+                elif getter == "methodcaller" and len(g[2]) == 1 and g[2][0][:1] == ("const",) and not g[3]:
+                    body = ("call", ("attr", el, g[2][0][1].strip("'\"")), (), ())
                 elif g[:1] == ("attr",) and g[2] == "__getitem__":
                     # map(d.__getitem__, xs) is (d[x] for x in xs)
                     body = ("sub", g[1], el)
@@ -786,6 +795,14 @@ class Sym:
             return ("key" if i == 0 else "val", term[1][1][1])
         if term[:1] == ("tuple",) and i < len(term[1]):
             return term[1][i]
+        # a, b = (f(c) for c in (c1, c2)): component i of a generator / list built by one comprehension over a display is f(c_i)
+        if term[:1] == ("acc",) and term[1] in ("gen", "list") and len(term[2]) == 1 and term[2][0][0] == "one" and not term[2][0][1]:
+            body_t = term[2][0][2]
+            elems = {x for x in subterms(body_t) if x[:1] == ("elem",) and x[1][:1] in (("tuple",), ("list",)) and 0 < len(x[1][1]) <= 8}
+            if len(elems) == 1:
+                el = next(iter(elems))
+                if i < len(el[1][1]):
+                    return _simplify_items(subst(body_t, {el: el[1][1][i]}))
         if is_call_of(term) and term[1][:1] == ("glob",) and _NT_ACTIVE.get(term[1][1]) is not None:
             nf = _nt_fields(_NT_ACTIVE, term)
             if nf is not None and i < len(nf[1]):
